@@ -318,3 +318,41 @@ Section Deployed.
     unfold static_domain in Hd. apply Ok_inj in Hd. apply beqb_eq in Hd. exact Hd.
   Qed.
 End Deployed.
+
+(** * Histories: the answer to a call does not depend on the calls made before it on the
+      same Server (nor on their order, repetition or interleaving) *)
+Lemma run_history_stateless {C R} (f : C -> R) (calls : list C) :
+  run_history (fun (st : unit) c => (st, f c)) tt calls = (tt, map f calls).
+Proof. induction calls as [|c t IH]; cbn; [reflexivity|]. rewrite IH. reflexivity. Qed.
+
+Section Histories.
+  Variable H : bytes -> bytes.
+  Variable verify : bytes -> bytes -> bytes -> bool.
+  Variable hmac : bytes -> bytes -> bytes.
+  Variable b64 : bytes -> option bytes.
+  Variable boc : bytes -> res (list cell).
+  Variable lib_ok ext_ok : cell -> bool.
+  Variable known : known_table.
+  Variable secret domain : bytes.
+  Variable lt_proof lt_payload : Z.
+
+  Notation hist := (server_history H verify hmac b64 boc lib_ok ext_ok known secret domain lt_proof lt_payload).
+  Notation alone := (server_call H verify hmac b64 boc lib_ok ext_ok known secret domain lt_proof lt_payload).
+
+  Theorem history_independent before c after :
+    nth_error (hist (before ++ c :: after)) (length before) = Some (alone c).
+  Proof.
+    unfold server_history, server_step. rewrite run_history_stateless. cbn [snd].
+    rewrite map_app. rewrite nth_error_app2 by (rewrite map_length; lia).
+    rewrite map_length, Nat.sub_diag. reflexivity.
+  Qed.
+
+  Theorem history_is_map calls : hist calls = map alone calls.
+  Proof. unfold server_history, server_step. rewrite run_history_stateless. reflexivity. Qed.
+
+  (* in particular: a call rejected alone is rejected after any history (no login of the
+     attacker can make a later forged proof pass) *)
+  Corollary rejected_alone_rejected_in_history before c after k :
+    alone c <> Ok k -> nth_error (hist (before ++ c :: after)) (length before) <> Some (Ok k).
+  Proof. intros Hn He. rewrite history_independent in He. injection He as He. contradiction. Qed.
+End Histories.
